@@ -169,7 +169,7 @@ def check_C02(ctx):
 
 def check_C04(ctx):
     import oracles
-    fs_property(ctx, "C04", "C04", ["C04_pos_arith", "C04_pos_unique", "C04_branches_dead", "C04_positions_stable"], oracles.c04)
+    fs_property(ctx, "C04", "C04", ["C04_pos_arith", "C04_pos_unique", "C04_branches_dead", "C04_positions_stable", "C04_positions_wf", "C04_lastknown_not_before_content"], oracles.c04)
 
 
 def check_C05(ctx):
@@ -252,5 +252,43 @@ def check_C07(ctx):
                         samples=[dict(calls=[(c["op"], c.get("name"), c.get("name2")) for c in data[0]["h"]["calls"][:data[0]["h"]["nbase"]]])] if data and data[0] else [])
 
 
-REGISTRY = {"C07": check_C07, "C06": check_C06, "C10": check_C10, "C15": check_C15, "C01": check_C01, "C02": check_C02, "C04": check_C04, "C05": check_C05,
+def check_C14(ctx):
+    import handles, collections
+    ctx.trusted += M1_TRUST + ["Model/File.v (handle state machine with the file-backed write cache) is tied by the correspondence run over handle-call sequences; the memory write cache (mattetti/filebuffer) is not modelled",
+                               "reference = afero OsFs (os.File) run side by side; error kinds are not compared (any error = any error); EOF signalling is compared only when no byte is returned; WriteAt on O_APPEND handles and zero-length reads are outside the reference's domain"]
+    coq_props(ctx, "C14", ["C14_spec_demo"])
+    data = handles.handle_stream(ctx)
+    tie = handles.c14_tie(ctx, data)
+    ctx.oblige("correspondence: Model/File.v evaluates in Coq on the observed handle sequences", tie["ok"], tie["log"])
+    ctx.oblige("correspondence: results of every handle call and the content after close agree between model and implementation (%d file-cache sequences)" % tie["cases"],
+               tie["ok"] and not tie["bad"], json.dumps(tie["bad"][:5]))
+    for (k, j) in tie["bad"][:3]:
+        ctx.violation("correspondence", "handle call %d differs from the model" % j, dict(history=data[k]["h"], first_disagreeing_handle_call=j), found_input=False)
+    nfail, ncalls = 0, 0
+    ops = collections.Counter()
+    distinct = set()
+    for d in data:
+        for c in d["h"]["calls"]:
+            ops[c["op"]] += 1
+        ncalls += len(d["res"])
+        distinct.add(json.dumps([(c["op"], c.get("off"), c.get("n"), c.get("whence")) for c in d["h"]["calls"]]))
+        for f in handles.c14_oracle(d):
+            if f["kind"] == "crash-or-hang":
+                fid = "C14-memory-write-cache" if (d["h"]["config"].get("cache") == "memory" and ("filebuffer" in d["err"] or "bytes.(*Buffer)" in d["err"])) else None
+            else:
+                fid = handles.classify_c14(d, f)
+            if fid and any(x["id"] == fid for x in ctx.findings):
+                ctx.known(fid, next(x["what"] for x in ctx.findings if x["id"] == fid))
+                continue
+            nfail += 1
+            if nfail <= 5:
+                ctx.violation(f["kind"], "%s at call %d" % (f["kind"], f["i"]),
+                              dict(history=dict(d["h"], calls=d["h"]["calls"][:f["i"] + 1]), detail=f["detail"], reference="afero OsFs on the same calls"))
+    ctx.oblige("oracle: every handle call returns what an in-memory byte-array file returns, and the content after close is the reference's (known findings apart)", nfail == 0, "%d failures" % nfail)
+    ctx.coverage.update(evaluations=ncalls, sequences=len(data), distinct_nontrivial=len(distinct), op_histogram=dict(ops),
+                        rule="handle-call sequences (read, read-at, seek x3 whences, write, write-at, write-string, truncate, sync, stat) on a file of 0/10/600/1500 bytes opened with 11 flag combinations, both write caches, record sizes 1/3/20; distinct = different call sequence",
+                        samples=[dict(flags=next(c["flags"] for c in data[0]["h"]["calls"] if c["op"] == "open"), calls=[(c["op"], c.get("off"), c.get("n")) for c in data[0]["h"]["calls"][:10]])] if data else [])
+
+
+REGISTRY = {"C14": check_C14, "C07": check_C07, "C06": check_C06, "C10": check_C10, "C15": check_C15, "C01": check_C01, "C02": check_C02, "C04": check_C04, "C05": check_C05,
             "C12": check_C12, "C13": check_C13}
